@@ -30,8 +30,13 @@ def run_property(prop: str, tier: str, root: str | None = None) -> int:
         rep.analysed["modules"] = prog.digests()
         rep.analysed["repo_root"] = prog.root
         mod.run(prog, rep, tier)
-        if tier == "thorough" and hasattr(mod, "run_thorough"):
-            mod.run_thorough(prog, rep)
+        if tier == "thorough":
+            from . import thorough
+
+            if hasattr(mod, "run_thorough"):
+                mod.run_thorough(prog, rep)
+            thorough.selftest_obligations(prop, rep, prog.root)
+            thorough.mypy_second_witness(rep, prog.root)
         seed = int(os.environ.get("VERIF_SEED", "0") or 0)
         return rep.finish(seed)
     except AnalysisError as exc:
